@@ -500,7 +500,7 @@ def shard(cfg):
 
     try:
         n, v, herr = hyp_search(strategy(cfg["ops"]), body, seed=cfg["seed"] * 1000 + cfg["shard"],
-                                max_examples=cfg["examples"])
+                                max_examples=cfg["examples"], case_cpu_s=30.0)
     finally:
         if _DIR:
             shutil.rmtree(_DIR, ignore_errors=True)
